@@ -48,3 +48,49 @@ Definition pinned_attr_assigns : list attr_assign := [
 
 Definition pinned_defective : table :=
   mkTable pinned_signatures pinned_callsites pinned_attr_assigns [] [] [] [] "".
+
+(* ---- frozen excerpt of the TAXII source as of /repo 9bfe19c: all_versions calls
+   self.query(query=query, _composite_filters=..) WITHOUT version=, then parses again with it ---- *)
+Definition pinned_taxii_signatures : list fsig := [
+  mkSig "parsing.dict_to_stix2" (KFunc) [("stix_dict", None); ("allow_custom", Some (Const "False")); ("interoperability", Some (Const "False")); ("version", Some (Const "None"))] "" "" ["version"];
+  mkSig "parsing.parse" (KFunc) [("data", None); ("allow_custom", Some (Const "False")); ("interoperability", Some (Const "False")); ("version", Some (Const "None"))] "" "" [];
+  mkSig "taxii.TAXIICollectionSource.__init__" (KMethod "taxii.TAXIICollectionSource") [("self", None); ("collection", None); ("allow_custom", Some (Const "True")); ("items_per_page", Some (Const "5000"))] "" "" [];
+  mkSig "taxii.TAXIICollectionSource.all_versions" (KMethod "taxii.TAXIICollectionSource") [("self", None); ("stix_id", None); ("version", Some (Const "None")); ("_composite_filters", Some (Const "None"))] "" "" [];
+  mkSig "taxii.TAXIICollectionSource.query" (KMethod "taxii.TAXIICollectionSource") [("self", None); ("query", Some (Const "None")); ("version", Some (Const "None")); ("_composite_filters", Some (Const "None"))] "" "" []
+].
+
+Definition pinned_taxii_callsites : list site := [
+  mkSite "parsing.parse>parsing.dict_to_stix2#1" "parsing.parse" "parsing.dict_to_stix2" VDirect
+    [("stix_dict", (Other "local obj" ["allow_custom"; "data"; "interoperability"; "version"])); ("allow_custom", (FromParam "allow_custom")); ("interoperability", (FromParam "interoperability")); ("version", (FromParam "version"))]
+    "40" "dict_to_stix2(obj, allow_custom, interoperability, version)";
+  mkSite "taxii.TAXIICollectionSource.all_versions>taxii.TAXIICollectionSource.query#1" "taxii.TAXIICollectionSource.all_versions" "taxii.TAXIICollectionSource.query" VSelf
+    [("query", (Other "local query" ["stix_id"])); ("_composite_filters", (FromParam "_composite_filters"))]
+    "252" "self.query(query=query, _composite_filters=_composite_filters)";
+  mkSite "taxii.TAXIICollectionSource.all_versions>parsing.parse#1" "taxii.TAXIICollectionSource.all_versions" "parsing.parse" VDirect
+    [("data", (Other "local stix_obj" ["_composite_filters"; "self.allow_custom"; "self.query"; "stix_id"; "version"])); ("allow_custom", (FromAttr "allow_custom")); ("version", (FromParam "version"))]
+    "255" "parse(stix_obj, allow_custom=self.allow_custom, version=version)";
+  mkSite "taxii.TAXIICollectionSource.query>parsing.parse#1" "taxii.TAXIICollectionSource.query" "parsing.parse" VDirect
+    [("data", (Other "local stix_obj_dict" ["query"])); ("allow_custom", (FromAttr "allow_custom")); ("version", (FromParam "version"))]
+    "328" "parse(stix_obj_dict, allow_custom=self.allow_custom, version=version)"
+].
+
+Definition pinned_taxii_attr_assigns : list attr_assign := [
+  mkAttr "taxii.TAXIICollectionSource" "__init__" "allow_custom" (FromParam "allow_custom")
+].
+
+Definition pinned_taxii : table :=
+  mkTable pinned_taxii_signatures pinned_taxii_callsites pinned_taxii_attr_assigns [] [] [] [] "".
+
+(* the one-line repair, applied to ANY table: the call site all_versions -> self.query also binds
+   version <- the caller's version (no change when it already binds it) *)
+Definition taxii_query_site : string := "taxii.TAXIICollectionSource.all_versions>taxii.TAXIICollectionSource.query#1".
+Definition with_query_version (T : table) : table :=
+  mkTable (t_sigs T)
+          (map (fun s => if String.eqb (s_id s) taxii_query_site
+                         then match assoc "version" (s_binds s) with
+                              | Some _ => s
+                              | None => mkSite (s_id s) (s_caller s) (s_callee s) (s_via s)
+                                               (s_binds s ++ [("version", FromParam "version")]) (s_line s) (s_text s)
+                              end
+                         else s) (t_sites T))
+          (t_attrs T) (t_fwds T) (t_comps T) (t_bases T) (t_aliases T) (t_wbenv T).
